@@ -330,14 +330,16 @@ class LiteralMethod(DeserializationMethod):
     types: Tuple[type, ...]
 
     def deserialize(self, data: Any) -> Any:
+        # keys are (class, value) pairs, because True == 1 == 1.0 for dict lookup
         try:
-            return self.value_map[data]
+            return self.value_map[(data.__class__, data)]
         except KeyError:
             if self.coercer is not None:
                 for cls in self.types:
                     try:
-                        return self.value_map[self.coercer(cls, data)]
-                    except IndexError:
+                        coerced = self.coercer(cls, data)
+                        return self.value_map[(coerced.__class__, coerced)]
+                    except (KeyError, TypeError, ValidationError):
                         pass
             raise ValidationError(format_error(self.error, data))
         except TypeError:
